@@ -29,7 +29,7 @@ from ..binding import Binding
 from ..bitdom import Int, V, Value
 from ..effects import Effects, _SelfWalker
 from ..fields import FieldRanges
-from ..flow import Walker, guard_has, fmt, exclusive
+from ..flow import stale_reads, Walker, guard_has, fmt, exclusive
 from ..machine import Machine, compare_final, describe_witness
 from ..ranges import FuncAnalyzer
 from ..refmodel import P
@@ -402,6 +402,10 @@ def check_templates(run, repo, eff, bind):
         for e in effect_events(tr):
             if e.kind == 'FlagWrite':
                 viol(ci, 'flag write', 'a branch instruction writes CPSR.%s' % e.d['flag'])
+        for e, w in stale_reads(tr)[:1]:
+            viol(ci, 'read of R[%s] after write of R[%s]' % (fmt(e.d['idx']), fmt(w.d['idx'])),
+                 'the operand register is read after R[%s] was written (`%s`): when the two coincide (e.g. BLX lr) the branch uses the '
+                 'new value' % (fmt(w.d['idx']), w.text()[:60]))
 
 
 def check_offsets(run, repo, bind):
